@@ -34,7 +34,7 @@ func init() {
 		Level: "exploration",
 		Rule: "seeded models from internal/gen: (a) saturated models in which every catalogue attribute of every model type is present (alternatives spread over 4 services, all spellings), " +
 			"(b) the compose files shipped with the loader (full-example.yml, testdata), (c) random models of density 0.1..0.6 with tricky scalar texts, variables, profiles and multi-file layouts; " +
-			"each loaded under one of {default, SkipNormalization, ResolvePaths=false, both, SkipConsistencyCheck, SkipExtends} then rendered to YAML and JSON, reloaded with the same working directory, environment, name and options, compared field by field and re-rendered. " +
+			"each loaded under one of {default, SkipNormalization, ResolvePaths=false, both, SkipConsistencyCheck, SkipExtends} then (half of the projects after a first rendering with WithSecretContent) rendered to YAML and JSON, reloaded with the same working directory, environment, name and options, compared field by field and re-rendered. " +
 			"A case is non-trivial when the model loaded and at least one rendering was reloaded and compared; distinct = distinct inputs (files, environment, options). " +
 			"classes.field lists the struct fields (by reflection over types.Project) seen non-zero in a project that went through the round trip; classes.field_universe lists all of them.",
 		Assumptions: []string{
